@@ -3,6 +3,7 @@ CONSTANTS LoopDelayOwnFreeVars = TRUE
           LoopDurationMapped = TRUE
           ParamValuesReachDelays = FALSE
           ChecksBeforeSave = TRUE AliasesReachDurations = TRUE
+          DelayInputsForbidden = TRUE ExpandKeepsElements = TRUE
           Family = "cex"
 INIT Init
 NEXT Next
